@@ -169,7 +169,7 @@ def main(argv=None):
         return 0
     except Exception as e:  # analyser bug: never looks like a violation
         print(f"ANALYSIS-ERROR property={pid} analyser crashed: {type(e).__name__}: {e}")
-        traceback.print_exc(file=sys.stdout)
+        traceback.print_exc(limit=-6, file=sys.stdout)
         return 2
 
 
